@@ -132,7 +132,8 @@ namespace nmtools::meta
                 return template_reduce<nmtools::len(result)>([&](auto init, auto index){
                     using init_type = type_t<decltype(init)>;
                     constexpr auto I = at(result,index);
-                    if constexpr (is_constant_index_array_v<shape_t>) {
+                    // clipped repeats are upper bounds, not values: the result is then only bounded, even for a constant shape
+                    if constexpr (is_constant_index_array_v<shape_t> && !is_clipped_index_array_v<repeats_t>) {
                         using result_t  = append_type_t<init_type,ct<I>>;
                         return as_value_v<result_t>;
                     } else {
